@@ -99,7 +99,8 @@ Inductive site := SiteDeny | SiteDirect | SiteMitm.
 Definition site_forms (st : site) (h : str) : list str :=
   match st with
   | SiteDeny => if deny_also_without_trailing_dot then [h; trim_dot h] else [h]
-  | _ => [h]
+  | SiteDirect => if direct_also_without_trailing_dot then [h; trim_dot h] else [h]
+  | SiteMitm => [h]
   end.
 
 (* ------------------------------------------------------------------ the reference *)
